@@ -65,7 +65,14 @@ def make_code(rng, tabs=0, final_newline=True, nested=False):
             parts.append(b'-->8\n')
         body = carts.simple_lua(rng, rng.choice((0, 20, 60, 150)))
         if nested and rng.random() < 0.5:
-            body += b'#include nested%d.lua\n' % rng.randrange(9)
+            # (a directive inside an included cart stays a line of text: glyphs in its name included)
+            body += rng.choice((b'#include nested%d.lua\n' % rng.randrange(9), b'#include \x8e\x97%d.lua\n' % rng.randrange(9),
+                                b'--[[\n#include \x99\xe3lib.p8\n]]\n'))
+        if rng.random() < 0.3:
+            # tokens that span lines: a long string, a block comment (a quoted string continued by backslash-newline may be re-spelled by
+            # the writer an included cart's code passes through, C06, so it is left to that check)
+            body += rng.choice((b'txt=[[first\n second\n\nfourth]]\n', b'--[==[ note\n over\n lines ]==]\n', b'help=[=[\n]=] x=1\n',
+                                b'--[[\n\n]]\n'))
         parts.append(body)
     code = b''.join(parts)
     if not final_newline:
